@@ -100,7 +100,7 @@ def run_case(case, rng):
         if rng.random() < 0.2:
             # a large constant added to every reward: values shift by c/(1-gamma), the policy must not move at all
             R = R + rng.choice([1e3, 1e5, -1e5])
-        gamma = rng.choice([0.3, 0.9, 0.99])
+        gamma = rng.choice([0.3, 0.9, 0.99, 0.3, 0.9, 0.99, 0.9995])      # (and a horizon of thousands of steps)
         w = rng.choice([2.0 ** -10, 2.0 ** -7, 0.05, 0.1, 1.0, 1.0, 10.0, 2, 5, np.float64(0.5)])   # Python ints too (numpy ints are not among the documented types)
         per_state = rng.random() < 0.3
         if per_state:
